@@ -70,6 +70,8 @@ if mode in ("seeds", "all"):
             continue
         meta_p = os.path.join(sd, "meta.json")
         meta = json.load(open(meta_p)) if os.path.exists(meta_p) else {}
+        if meta.get("obsolete"):  # a later fix made this change harmless (see meta.json); nothing to detect any more
+            continue
         props = meta.get("run_checks") or [sid.split("-")[0]]
         tasks.append(("seed", sid, f"cd {{d}} && patch -p1 -s < {sd}patch.diff", props))
 
